@@ -13,6 +13,8 @@ Extra == (<<"pk","alias">> :> {<<"pk","mod">>})
 Imp(form, module, alias) == [t |-> "import", form |-> form, module |-> module, alias |-> alias]
 Bnd(sel, param, val) == [t |-> "bind", sel |-> sel, param |-> param, val |-> val, ref |-> <<>>]
 BndRef(sel, param, ref) == [t |-> "bind", sel |-> sel, param |-> param, val |-> "@", ref |-> ref]
+DynSkips == { [mode |-> "false", names |-> {}], [mode |-> "true", names |-> {}],
+              [mode |-> "list", names |-> {<<"zz","fn">>, <<"pk","mod","nope">>}] }
 Tpl == {
   Imp("plain", <<"pk","mod">>, ""), Imp("plain", <<"pk","sub","mod">>, ""), Imp("as", <<"pk","mod">>, "m"),
   Imp("from", <<"pk","mod">>, ""), Imp("from", <<"pk","sub","mod">>, ""), Imp("fromas", <<"pk","alias">>, "al"),
@@ -21,5 +23,6 @@ Tpl == {
   Bnd(<<"pk","mod","Cls">>, "x", "1"), Bnd(<<"pk","mod","Cls","meth">>, "x", "2"), Bnd(<<"mod","Cls","Inner">>, "x", "3"),
   Bnd(<<"pk","sub","mod","fn">>, "x", "5"), Bnd(<<"zz","fn">>, "x", "1"), Bnd(<<"pk","mod","nope">>, "x", "1"),
   BndRef(<<"pk","mod","fn">>, "y", <<"pk","mod","Cls">>), BndRef(<<"m","fn">>, "y", <<"m","Cls">>),
+  BndRef(<<"pk","mod","fn">>, "y", <<"zz","fn">>), Bnd(<<"pk","sub","mod","nope">>, "x", "1"),
   [t |-> "enable"] }
 =============================================================================
